@@ -154,14 +154,37 @@ def check_draws(case):
         res.nontrivial = True
         return res
 
+    other = None
+    if len(sp["reactions"]) > 1:
+        # a second delayed reaction with its own distribution draws from the same generator in between (as happens in
+        # any simulation with two delayed reactions): each stream must still have its own law
+        other = M.get_delays()[1]
+        d2 = sp["reactions"][1]["delay"]
+        dist2 = st_.norm(_delay_value(sp, d2, "mean"), _delay_value(sp, d2, "std")) if d2["type"] == "gaussian" else \
+            st_.gamma(a=_delay_value(sp, d2, "k"), scale=_delay_value(sp, d2, "theta"))
+        res.label("interleaved_with:" + d2["type"])
+
     def run(n, seed):
         py_seed_random(seed)
-        xs = np.array([dobj.py_get_delay(state, params) for _ in range(n)])
-        return [("ks", stats.ks_against(xs, dist.cdf), {"mean": float(xs.mean()), "std": float(xs.std()),
-                                                           "expected_mean": float(dist.mean()), "expected_std": float(dist.std())})]
+        if other is None:
+            xs = np.array([dobj.py_get_delay(state, params) for _ in range(n)])
+            ys = None
+        else:
+            xs, ys = np.empty(n), np.empty(n)
+            for i in range(n):
+                xs[i] = dobj.py_get_delay(state, params)
+                ys[i] = other.py_get_delay(state, params)
+        out = [("ks", stats.ks_against(xs, dist.cdf), {"mean": float(xs.mean()), "std": float(xs.std()),
+                                                         "expected_mean": float(dist.mean()), "expected_std": float(dist.std())})]
+        if ys is not None:
+            out.append(("ks_second_stream", stats.ks_against(ys, dist2.cdf),
+                        {"mean": float(ys.mean()), "std": float(ys.std()), "expected_mean": float(dist2.mean()),
+                         "expected_std": float(dist2.std())}))
+        return out
     rej, report = stats.two_stage(run, case["n1"], case["seed"], case["seed"] + 15485863)
     for name, p, info in rej:
-        res.fail(("delay_distribution", d["type"]), pvalue=p, info=info, report=report, params=d["pd"])
+        res.fail(("delay_distribution", d["type"]) + (("interleaved",) if other is not None else ()), test=name, pvalue=p,
+                 info=info, report=report, params=d["pd"])
     res.label("draws:" + d["type"])
     res.nontrivial = True
     return res
@@ -291,6 +314,16 @@ def draw_cases(draw, n1):
         pd = {"delay": b.value_entry(gen.logfl(0.01, 50))}
     rx["delay"] = {"type": typ, "r": [], "p": ["A"], "pd": pd}
     b.reactions.append(rx)
+    if typ != "fixed" and draw(st.booleans()):
+        rx2 = gen.massaction(b, ["A"], [])
+        typ2 = draw(st.sampled_from(["gaussian", "gamma"]))
+        if typ2 == "gaussian":
+            pd2 = {"mean": b.value_entry(gen.fl(-5, 40)), "std": b.value_entry(gen.logfl(0.01, 10))}
+        else:
+            pd2 = {"k": b.value_entry(st.one_of(st.sampled_from([1.0, 2.0, 5.0]), gen.nice(1.0, 12.0))),
+                   "theta": b.value_entry(gen.logfl(0.01, 20))}
+        rx2["delay"] = {"type": typ2, "r": [], "p": ["A"], "pd": pd2}
+        b.reactions.append(rx2)
     return {"kind": "draws", "spec": b.spec({"A": 3.0}), "n1": n1, "seed": draw(st.integers(1, 2 ** 40))}
 
 
